@@ -135,4 +135,22 @@ PLAN = {
             {"name": "miri", "flavour": "miri", "shards": 4, "shards_thorough": 64, "timeout": 1500},
         ],
     },
+    "C06": {
+        "level": "exploration",
+        "rule": "seq legs: random histories (20-800 ops) of get_or_create / get / delete / retain / clear / visit / get_*_handles over "
+                "1-300 keys (equal keys rebuilt through 10 construction paths with permuted labels; enough keys per shard to force map "
+                "resizes) against a reference map, with storage doubles that carry a unique id, their kind and their key; run with 16, 4 "
+                "and 1 registry shards (CPU affinity). race legs: 2-5 threads x 1-3 ops on 1-3 keys x 3 kinds, a third with a creator "
+                "gated between dropping the read lock and taking the write lock, a third with random holds; each (kind,key) sub-history "
+                "is checked for linearizability against a single-entry map (P-compositionality). case = history; distinct = history hash.",
+        "assumptions": ["keys use pairwise distinct label names (or two labels sharing a name), where equality is label-order-insensitive", "linearizability search budget 300k states"],
+        "legs": [
+            {"name": "seq", "flavour": "native", "shards": 3, "shards_thorough": 12},
+            {"name": "seq-3cpu", "leg": "seq", "flavour": "native", "shards": 2, "shards_thorough": 6, "cpus": "0-2", "scale": 0.5},
+            {"name": "seq-1cpu", "leg": "seq", "flavour": "native", "shards": 2, "shards_thorough": 6, "cpus": "0", "scale": 0.5},
+            {"name": "race", "flavour": "native", "shards": 4, "shards_thorough": 16},
+            {"name": "race-1cpu", "leg": "race", "flavour": "native", "shards": 1, "shards_thorough": 4, "cpus": "1", "scale": 0.2},
+            {"name": "miri", "flavour": "miri", "shards": 6, "shards_thorough": 48, "miriflags": IGN, "timeout": 1500},
+        ],
+    },
 }
